@@ -263,6 +263,14 @@ fn with_fd<R>(fd: c_int, f: impl FnOnce(&mut World) -> R) -> Option<R> {
     r
 }
 
+/// The delivery log is for humans: it never grows without bound (an implementation that
+/// retries for ever against a persistent fault must not be killed by *our* bookkeeping).
+fn log_push(w: &mut World, line: String) {
+    if w.d.log.len() < 256 {
+        w.d.log.push(line);
+    }
+}
+
 /// One tick of the crash clock: called once per tracked system call, before it takes effect.
 fn tick(w: &mut World) {
     let n = w.d.ticks;
@@ -297,12 +305,12 @@ unsafe fn do_open(dirfd: c_int, path: *const c_char, flags: c_int, mode: c_uint)
         match fault {
             Some(OpenFault::Eintr) => {
                 w.d.open_eintr += 1;
-                w.d.log.push(format!("open#{}=EINTR", idx));
+                log_push(w, format!("open#{}=EINTR", idx));
                 Decision::Fail(libc::EINTR)
             }
             Some(OpenFault::Hard(e)) => {
                 w.d.open_hard += 1;
-                w.d.log.push(format!("open#{}={}", idx, errno_name(e)));
+                log_push(w, format!("open#{}={}", idx, errno_name(e)));
                 Decision::Fail(e)
             }
             None => Decision::Pass(idx),
@@ -321,9 +329,9 @@ unsafe fn do_open(dirfd: c_int, path: *const c_char, flags: c_int, mode: c_uint)
             with_armed(|w| {
                 if fd >= 0 {
                     w.fds.push(fd);
-                    w.d.log.push(format!("open#{}=fd flags={:#o}", idx, flags));
+                    log_push(w, format!("open#{}=fd flags={:#o}", idx, flags));
                 } else {
-                    w.d.log.push(format!("open#{}=real:{}", idx, errno_name(saved)));
+                    log_push(w, format!("open#{}=real:{}", idx, errno_name(saved)));
                 }
             });
             set_errno(saved);
@@ -421,17 +429,17 @@ fn decide_write(fd: c_int, n: usize) -> Option<Decision<usize>> {
         match fault {
             Some(WriteFault::Eintr) => {
                 w.d.write_eintr += 1;
-                w.d.log.push(format!("write#{}({})=EINTR", idx, n));
+                log_push(w, format!("write#{}({})=EINTR", idx, n));
                 return Some(Decision::Fail(libc::EINTR));
             }
             Some(WriteFault::Hard(e)) => {
                 w.d.write_hard += 1;
-                w.d.log.push(format!("write#{}({})={}", idx, n, errno_name(e)));
+                log_push(w, format!("write#{}({})={}", idx, n, errno_name(e)));
                 return Some(Decision::Fail(e));
             }
             Some(WriteFault::Zero) => {
                 w.d.write_zero += 1;
-                w.d.log.push(format!("write#{}({})=0", idx, n));
+                log_push(w, format!("write#{}({})=0", idx, n));
                 return Some(Decision::Return(0));
             }
             Some(WriteFault::Short(spec)) => {
@@ -460,7 +468,7 @@ fn decide_write(fd: c_int, n: usize) -> Option<Decision<usize>> {
             let room = limit.saturating_sub(w.d.bytes_accepted);
             if room == 0 {
                 w.d.disk_full_err += 1;
-                w.d.log.push(format!("write#{}({})=ENOSPC@{}", idx, n, w.d.bytes_accepted));
+                log_push(w, format!("write#{}({})=ENOSPC@{}", idx, n, w.d.bytes_accepted));
                 return Some(Decision::Fail(libc::ENOSPC));
             }
             if (allowed as u64) > room {
@@ -469,7 +477,7 @@ fn decide_write(fd: c_int, n: usize) -> Option<Decision<usize>> {
             }
         }
         if w.d.log.len() < 64 {
-            w.d.log.push(format!("write#{}({})={}", idx, n, allowed));
+            log_push(w, format!("write#{}({})={}", idx, n, allowed));
         }
         Some(Decision::Pass(allowed))
     })
@@ -604,9 +612,10 @@ pub unsafe extern "C" fn close(fd: c_int) -> c_int {
             tick(w);
             w.fds.swap_remove(pos);
             w.d.closes += 1;
-            if let Some(e) = w.plan.close_err {
+            let transient_spent = w.plan.close_err == Some(libc::EINTR) && w.d.close_err >= 3;
+            if let (Some(e), false) = (w.plan.close_err, transient_spent) {
                 w.d.close_err += 1;
-                w.d.log.push(format!("close={}", errno_name(e)));
+                log_push(w, format!("close={}", errno_name(e)));
                 return Some(e);
             }
         }
@@ -627,9 +636,12 @@ unsafe fn sync_common(fd: c_int, nr: c_long) -> c_int {
         if w.fds.contains(&fd) {
             tick(w);
             w.d.fsyncs += 1;
-            if let Some(e) = w.plan.fsync_err {
+            // EINTR is transient by nature (std retries fsync on it): at most three in a row,
+            // as for open and write; a persistent EINTR would be a livelock of our own making
+            let transient_spent = w.plan.fsync_err == Some(libc::EINTR) && w.d.fsync_err >= 3;
+            if let (Some(e), false) = (w.plan.fsync_err, transient_spent) {
                 w.d.fsync_err += 1;
-                w.d.log.push(format!("fsync={}", errno_name(e)));
+                log_push(w, format!("fsync={}", errno_name(e)));
                 return Some(e);
             }
         }
@@ -658,10 +670,10 @@ fn meta_fault_in(w: &mut World, what: &str) -> Option<c_int> {
     w.d.metas += 1;
     if let Some(e) = w.plan.meta_err {
         w.d.meta_err += 1;
-        w.d.log.push(format!("{}={}", what, errno_name(e)));
+        log_push(w, format!("{}={}", what, errno_name(e)));
         Some(e)
     } else {
-        w.d.log.push(format!("{}=pass", what));
+        log_push(w, format!("{}=pass", what));
         None
     }
 }
@@ -758,7 +770,7 @@ pub unsafe extern "C" fn unlink(path: *const c_char) -> c_int {
     with_armed(|w| {
         tick(w);
         w.d.metas += 1;
-        w.d.log.push("unlink=pass".into());
+        log_push(w, "unlink=pass".into());
     });
     libc::syscall(libc::SYS_unlinkat, libc::AT_FDCWD as c_long, path, 0 as c_long) as c_int
 }
@@ -769,7 +781,7 @@ pub unsafe extern "C" fn unlinkat(dirfd: c_int, path: *const c_char, flags: c_in
     with_armed(|w| {
         tick(w);
         w.d.metas += 1;
-        w.d.log.push("unlinkat=pass".into());
+        log_push(w, "unlinkat=pass".into());
     });
     libc::syscall(libc::SYS_unlinkat, dirfd as c_long, path, flags as c_long) as c_int
 }
@@ -786,10 +798,10 @@ unsafe fn fallocate_common(fd: c_int, mode: c_int, offset: off_t, len: off_t, po
             };
             if full {
                 w.d.disk_full_err += 1;
-                w.d.log.push(format!("fallocate({})=ENOSPC", len));
+                log_push(w, format!("fallocate({})=ENOSPC", len));
             } else if let Some(e) = w.plan.meta_err {
                 w.d.meta_err += 1;
-                w.d.log.push(format!("fallocate({})={}", len, errno_name(e)));
+                log_push(w, format!("fallocate({})={}", len, errno_name(e)));
                 return Some(e);
             }
             if full { Some(libc::ENOSPC) } else { None }
